@@ -191,6 +191,33 @@ let run_input (caseno : int) (tag : string) (inhex : string) (prog : sinstr list
     end in
   go s0
 
+(* reference semantics (Spec/PegEval.v) on the same grammar and input: the oracle of the conformance search *)
+let spec_fuel = ref 1500
+let spec_line (caseno : int) (inhex : string) (g : grammar) =
+  let t = Lazy.force ucd in
+  let space = (match g.g_space with Some e -> desugar e | None -> default_space_expr) in
+  match compile_defs t space [] g.g_defs with
+  | Err _ -> ()
+  | OK rt ->
+    (match link_layout t space rt g.g_start with
+     | Err _ -> ()
+     | OK (sk, s) ->
+        let in_frag = (s.l_lrec = []) && frag sk && List.for_all (fun (r, _) -> frag (rt_get rt r).r_body) s.l_addrs in
+        if not in_frag then Printf.printf "case %d spec %s n/a\n" caseno inhex
+        else begin
+          let inp = unhex inhex in
+          match peg_eval t inp (rules_of rt s) (nat_of_int !spec_fuel) (top_pexp sk g.g_start) N0 with
+          | None -> Printf.printf "case %d spec %s diverged\n" caseno inhex
+          | Some (Fail f) -> Printf.printf "case %d spec %s res=0 mr=%d log=\n" caseno inhex (int_of_n f)
+          | Some (Succ (j, tr, f)) ->
+              Printf.printf "case %d spec %s res=1 sr=%d mr=%d log=" caseno inhex (int_of_n j) (int_of_n (N.max f j));
+              List.iter (function
+                  | TrAct id -> Printf.printf "A%d " (int_of_n id)
+                  | TrCap (id, st, sz) -> Printf.printf "C%d(%d,%s) " (int_of_n id) (int_of_n st) (hex (firstnN sz (skipnN st inp)))) tr;
+              print_newline ()
+        end)
+
+let with_spec = ref false
 let do_grammar (caseno : int) (line : string) =
   match parse_sx line with
   | Lst (Atom "grammar" :: items) ->
@@ -214,7 +241,8 @@ let do_grammar (caseno : int) (line : string) =
             List.iter (function
                 | Lst (Atom "input" :: rest) ->
                     let inhex = (match rest with [Atom h] -> h | _ -> "-") in
-                    run_input caseno "sv" inhex code (init_state (unhex inhex) [] false [] [])
+                    run_input caseno "sv" inhex code (init_state (unhex inhex) [] false [] []);
+                    if !with_spec then spec_line caseno inhex g
                 | Lst (Atom "chunks" :: pieces) ->
                     let hs = List.map atom pieces in
                     let all = if hs = [] then "-" else String.concat "|" hs in
@@ -225,7 +253,7 @@ let do_grammar (caseno : int) (line : string) =
 
 let caseno = ref 0
 let () =
-  Array.iter (fun a -> if a = "--trace" then trace := true else if String.length a > 9 && String.sub a 0 9 = "--budget=" then budget := int_of_string (String.sub a 9 (String.length a - 9))) Sys.argv;
+  Array.iter (fun a -> if a = "--trace" then trace := true else if a = "--spec" then with_spec := true else if String.length a > 9 && String.sub a 0 9 = "--budget=" then budget := int_of_string (String.sub a 9 (String.length a - 9))) Sys.argv;
   try
     while true do
       let line = input_line stdin in
